@@ -228,7 +228,7 @@ def run(tier, seed):
   if tier == "quick":
     nprog, per = 192, 12
   else:
-    nprog, per = 2400, 25
+    nprog, per = 1600, 20
   if os.environ.get("VERIF_C20_NPROG"):      # development aid only
     nprog = int(os.environ["VERIF_C20_NPROG"])
     per = max(1, nprog // 16)
@@ -238,6 +238,7 @@ def run(tier, seed):
                   "arg": {"seed": seed, "lo": lo, "hi": min(nprog, lo + per)}})
   calls = 0
   oracle_errors = []
+  by_arm = {}
   for res in pool.run_tasks(tasks):
     if not res.get("ok"):
       ck.child_failed(res, "batch " + str(res.get("task")))
@@ -251,7 +252,10 @@ def run(tier, seed):
       ck.sample(s)
     oracle_errors += r.get("oracle_errors", [])
     for w in r["violations"]:
+      by_arm.setdefault(w["key"], {}).setdefault(w.get("arm", "?"), 0)
+      by_arm[w["key"]][w.get("arm", "?")] += 1
       ck.violation(w["key"], w)
+  ck.extra["mechanism_by_stub_arm"] = by_arm
   ck.count("monitor_calls(merge_sources)", calls)
   if oracle_errors:
     ck.extra["oracle_errors"] = oracle_errors[:3]
